@@ -86,15 +86,18 @@ pub struct Spelling {
     pub local_seps: Vec<u8>,
     pub implicit: bool,   // omit numbers that are 0 where the grammar allows
     pub trailing_zero_release: u8,
+    /// with an omitted number, still write the separator after the label ("1.0a.", "1.0.post_")
+    #[serde(default)]
+    pub dangling: bool,
 }
 pub fn spelling() -> BoxedStrategy<Spelling> {
     (
         (0u8..3, any::<bool>(), proptest::collection::vec(0u8..3, 1..6), 0u8..4, 0u8..4, 0u8..4),
         (0u8..4, 0u8..4, 0u8..4, 0u8..4, 0u8..4, 0u8..3),
-        (proptest::collection::vec(0u8..3, 1..4), any::<bool>(), 0u8..3),
+        (proptest::collection::vec(0u8..3, 1..4), any::<bool>(), 0u8..3, prop::bool::weighted(0.3)),
     )
-        .prop_map(|((v, epoch0, zeros, pre_sep1, pre_label, pre_sep2), (post_sep1, post_label, post_sep2, dev_sep1, dev_sep2, upper), (local_seps, implicit, trailing_zero_release))| Spelling {
-            v, epoch0, zeros, pre_sep1, pre_label, pre_sep2, post_sep1, post_label, post_sep2, dev_sep1, dev_sep2, upper, local_seps, implicit, trailing_zero_release,
+        .prop_map(|((v, epoch0, zeros, pre_sep1, pre_label, pre_sep2), (post_sep1, post_label, post_sep2, dev_sep1, dev_sep2, upper), (local_seps, implicit, trailing_zero_release, dangling))| Spelling {
+            v, epoch0, zeros, pre_sep1, pre_label, pre_sep2, post_sep1, post_label, post_sep2, dev_sep1, dev_sep2, upper, local_seps, implicit, trailing_zero_release, dangling,
         })
         .boxed()
 }
@@ -139,7 +142,10 @@ pub fn spell(p: &PepV, sp: &Spelling, extend_release: bool) -> String {
         o.push_str(SEP[sp.pre_sep1 as usize]);
         o.push_str(&casing(alts[sp.pre_label as usize % alts.len()], sp.upper));
         if *n == 0 && sp.implicit {
-            // implicit number: separator after the label would be ambiguous with what follows
+            // implicit number; the grammar still allows a separator after the label
+            if sp.dangling {
+                o.push_str(SEP[sp.pre_sep2 as usize]);
+            }
         } else {
             o.push_str(SEP[sp.pre_sep2 as usize]);
             o.push_str(&num(*n));
@@ -158,6 +164,8 @@ pub fn spell(p: &PepV, sp: &Spelling, extend_release: bool) -> String {
             if !(n == 0 && sp.implicit) {
                 o.push_str(SEP[sp.post_sep2 as usize]);
                 o.push_str(&num(n));
+            } else if sp.dangling {
+                o.push_str(SEP[sp.post_sep2 as usize]);
             }
         }
     }
@@ -167,6 +175,8 @@ pub fn spell(p: &PepV, sp: &Spelling, extend_release: bool) -> String {
         if !(n == 0 && sp.implicit) {
             o.push_str(SEP[sp.dev_sep2 as usize]);
             o.push_str(&num(n));
+        } else if sp.dangling {
+            o.push_str(SEP[sp.dev_sep2 as usize]);
         }
     }
     if let Some(l) = &p.local {
@@ -209,6 +219,7 @@ impl Spelling {
             local_seps: vec![take(3), take(3)],
             implicit: take(2) == 1,
             trailing_zero_release: take(3),
+            dangling: take(3) == 0,
         }
     }
 }
